@@ -261,7 +261,7 @@ def main(argv=None):
         for k, v in r[1].items():
             tcounts[k] = tcounts.get(k, 0) + v
         for t, c, d in r[2]:
-            rep.violation("text %s => %s %s" % (json.dumps(t, ensure_ascii=False), c, d.split(" @ ")[-1][:80]),
+            rep.violation("text %s => %s %s" % (json.dumps(t, ensure_ascii=False), c, re.sub(r"\.rs:\d+", ".rs", d.split(" @ ")[-1][:80])),
                           {"text": t, "class": c, "detail": d}, {"case": {"steps": [PROBE_DEF, t, "(vf-probe)", {"op": "depths"}]}, "env": ENV})
     # (b) built-ins
     nat = common.run_cases([{"id": 0, "steps": [{"op": "natives"}]}], batch=1)[0]["steps"][0]["v"]
@@ -275,7 +275,8 @@ def main(argv=None):
     seen = set()
     for call, cls, detail in sorted([x for r in bres for x in r[3]], key=lambda x: (x[0].split(" ")[0], len(x[0]))):
         # minimal per (function, failure class, panic location): the first tuple in alphabet order
-        loc = detail.split(" @ ")[-1] if " @ " in detail else ""
+        # the file of the panic identifies the site; the line number moves with every unrelated edit and is kept out of the signature
+        loc = re.sub(r":\d+$", "", detail.split(" @ ")[-1]) if " @ " in detail else ""
         key = (call.split(" ")[0].strip("()"), cls.split(":")[0], loc)
         if key in seen:
             continue
